@@ -23,6 +23,7 @@ pub enum LaneSpec {
 pub trait DynSim {
     fn name(&self) -> &'static str;
     fn run_driver(&self, ch: &mut Chooser, costly: bool, exhaustive_flag: bool) -> Run;
+    fn run_tolerant(&self, prefix: Vec<usize>, exhaustive_flag: bool) -> (Run, Option<String>);
     fn run_exhaustive(&self) -> Result<(usize, Vec<Obs>), String>;
     fn run_bytes(&self, bytes: Vec<u8>) -> (String, Verdict, Option<Obs>);
 }
@@ -33,6 +34,9 @@ impl<P, B: AsyncFn(&P) -> Obs> DynSim for Sim<P, B> {
     }
     fn run_driver(&self, ch: &mut Chooser, costly: bool, exhaustive_flag: bool) -> Run {
         Sim::run_driver(self, ch, costly, exhaustive_flag)
+    }
+    fn run_tolerant(&self, prefix: Vec<usize>, exhaustive_flag: bool) -> (Run, Option<String>) {
+        Sim::run_tolerant(self, prefix, exhaustive_flag)
     }
     fn run_exhaustive(&self) -> Result<(usize, Vec<Obs>), String> {
         Sim::run_exhaustive(self)
